@@ -692,7 +692,8 @@ Theorem finish_ok2 d g y A L : AInv d g L -> LInv d y A L ->
     NInv wF (length (w_buf wF)) LF /\
     PLay (w_buf wF) LF (mkLay (y_qs y) (y_rrs y ++ rsP)) (w_rr_start (d_w d)) (w_cursor wF) /\
     Forall2 rr_desc2 rsP (pseudo (d_w d)) /\
-    slice (w_buf wF) 4 12 = be16 (w_qd (d_w d)) ++ be16 (w_an (d_w d)) ++ be16 (w_ns (d_w d)) ++ be16 (w_ar (d_w d)).
+    slice (w_buf wF) 4 12 = be16 (w_qd (d_w d)) ++ be16 (w_an (d_w d)) ++ be16 (w_ns (d_w d)) ++ be16 (w_ar (d_w d)) /\
+    agree 4 (w_buf (d_w d)) (w_buf wF).
 Proof.
   intros Hi HL. unfold finish, finish_gen.
   set (c0 := w_cursor (d_w d)). set (h0 := length (w_buf (d_w d))).
@@ -725,6 +726,11 @@ Proof.
       rewrite (agree_slice 8 _ _ 6 8 (G3 8 ltac:(lia))) by lia. rewrite A1 in S2. exact S2.
     - rewrite (agree_slice 10 _ _ 8 10 (G4 10 ltac:(lia))) by lia. rewrite N2, N1 in S3. exact S3.
     - rewrite R3, R2, R1 in S4. exact S4. }
+  assert (Hag4 : agree 4 (w_buf (d_w d)) (w_buf w4)).
+  { eapply agree_trans; [apply (G1 4); lia|]. eapply agree_trans; [apply (G2 4); lia|].
+    eapply agree_trans; [apply (G3 4); lia|apply (G4 4); lia]. }
+  assert (Hc12 : 4 <= c0).
+  { pose proof (a_n _ _ _ Hi) as []. pose proof wconsts as [K _]. unfold c0. lia. }
   assert (Hc : w_cursor w4 = c0).
   { apply w_write_inv in E1 as [? [_ ->]]. apply w_write_inv in E2 as [? [_ ->]].
     apply w_write_inv in E3 as [? [_ ->]]. apply w_write_inv in E4 as [? [_ ->]]. reflexivity. }
@@ -827,12 +833,16 @@ Proof.
       split.
       { apply Forall2_app; auto. constructor; [|constructor]. unfold rr_desc2. simpl.
         unfold w5' in Rd6. simpl in Rd6. rewrite Hm5 in Rd6. exact Rd6. }
-      transitivity (slice (w_buf w5) 4 12); [|rewrite Hdr5; exact Hdr].
-      apply (agree_slice (w_cursor w5)); auto.
-      pose proof (a_n _ _ _ Hi) as []. pose proof wconsts as [K _]. unfold c0 in *. lia.
+      split.
+      { transitivity (slice (w_buf w5) 4 12); [|rewrite Hdr5; exact Hdr].
+        apply (agree_slice (w_cursor w5)); auto.
+        pose proof (a_n _ _ _ Hi) as []. pose proof wconsts as [K _]. unfold c0 in *. lia. }
+      eapply agree_trans; [exact Hag4|]. eapply agree_trans; [eapply agree_le; [exact Ag5|lia]|].
+      eapply agree_le; [exact Ag6|lia].
   - exists w5, L5, rs5. split; auto. split; auto. split; auto.
     assert (Et4 : w_tsig w4 = None) by congruence.
-    rewrite Et4, app_nil_r. split; auto. rewrite Hdr5. exact Hdr.
+    rewrite Et4, app_nil_r. split; auto. split; [rewrite Hdr5; exact Hdr|].
+    eapply agree_trans; [exact Hag4|]. eapply agree_le; [exact Ag5|lia].
 Qed.
 
 (* ---------------------------------------------------------------- whole runs *)
@@ -886,7 +896,8 @@ Theorem run_writer_layout buf limit w0 ops : writer_new buf limit = Ok w0 ->
            am_ar (areplay am0 ops (rr_outcomes rr)) ++ pseudo (d_w d)) /\
         FLay (d_w d) (mkLay (y_qs yF) (firstn (length (y_rrs yF) - length (pseudo (d_w d))) (y_rrs yF)))
              (areplay am0 ops (rr_outcomes rr)) /\
-        slice b 4 12 = be16 (w_qd (d_w d)) ++ be16 (w_an (d_w d)) ++ be16 (w_ns (d_w d)) ++ be16 (w_ar (d_w d))
+        slice b 4 12 = be16 (w_qd (d_w d)) ++ be16 (w_an (d_w d)) ++ be16 (w_ns (d_w d)) ++ be16 (w_ar (d_w d)) /\
+        agree 4 (w_buf (d_w d)) b
     | None => True
     end.
 Proof.
@@ -894,7 +905,7 @@ Proof.
   destruct (run_ok2 ops _ _ _ _ _ (AInv_new _ _ _ H0) (LInv_new _ _ _ H0) Hc)
     as [d [outs [alive [g [y [L [E [Hi HL]]]]]]]].
   rewrite E. cbn [bind]. destruct alive.
-  - destruct (finish_ok2 d g y _ L Hi HL) as [wF [LF [rsP [EF [HiF [PF [DF HF]]]]]]].
+  - destruct (finish_ok2 d g y _ L Hi HL) as [wF [LF [rsP [EF [HiF [PF [DF [HF HA4]]]]]]]].
     rewrite EF. cbn [bind]. eexists. split; [reflexivity|]. simpl.
     exists d, wF, LF, (mkLay (y_qs y) (y_rrs y ++ rsP)). destruct HL as [_ HFl].
     split; auto. split; [apply (a_ts _ _ _ Hi)|].
